@@ -1,18 +1,38 @@
-(* Prop_C14.v — property C14: the function call protocol (PARTIAL).
+(* Prop_C14.v — property C14: functions see every selected value once, in order; aggregates see all.
    Proved on the evaluator model, with "the values selected before it" given by the specification
-   (which the model refines exactly): a filter-function node calls the function exactly once with the
-   value it is handed (a plain value, never an Accessor), logs the call before the rest of the chain
-   runs, and its result replaces the value (C14_filter_function_node); an aggregate node evaluates its
-   parameter path privately and, iff that path selects something, calls the function exactly once
-   with ALL selected values — or with the elements of the single array when the path is not a value
-   group — and its result becomes the single value handed on (C14_aggregate_node); a failing function
-   yields ErrorFunctionFailed naming that node.  Together with C08_compose_same_root (the node after P
-   is applied to every cursor P selects, in order) this gives "once per selected value, in result
-   order"; chaining left to right is the chain order of the tree.
-   NOT proved as one statement: the global call log of a whole retrieval (the interleaving of
-   different functions and the short-circuiting of filter operands); it is compared with the model
-   call by call on every generated case, and with the direct protocol oracle on the real library. *)
-From JP Require Import Eval WF Verdict Spec EvalInv1 EvalInv3 EvalInv4 Refine1 Refine2 CallFacts.
+   (which the model refines exactly):
+   * C14_call_log — for every well-formed tree whose filters contain no user function, the call log of
+     a whole retrieval is EXACTLY the log the specification prescribes (CallDefs.sc): one filter-function
+     call per cursor reaching the function node, one aggregate call per evaluation of an aggregate node
+     whose parameter path selects something, in depth-first result order (chained functions apply left
+     to right because they are consecutive nodes of the chain);
+   * C14_filter_function_once_per_value — `P.f()`: f is called exactly once for each value the
+     function-free path P selects, in result order, with that value;
+   * C14_filter_function_node / C14_aggregate_node — what one function node does: the value handed to
+     the function is a plain value, the result replaces it; the aggregate receives ALL values its
+     parameter selects (or the elements of the single array of a path that is not a value group),
+     exactly once, and is not called at all when the parameter selects nothing; a failing function
+     yields ErrorFunctionFailed naming that node.
+   Scope: user functions inside filter operands are outside C14_call_log (their calls are
+   short-circuited by && / || by design); they are compared with the model call by call on every
+   generated case, like everything else. *)
+From JP Require Import Eval WF Verdict Spec CallDefs Actions EvalInv1 EvalInv3 EvalInv4 Refine1 Refine2 CallFacts SpecCalls SpecCallsCompose.
+
+Theorem C14_call_log : forall ffun afun regex_match,
+  (forall f v w, small v -> ffun f v = Some w -> small w) ->
+  (forall f l w, Forall small l -> afun f l = Some w -> small w) ->
+  forall t doc st,
+  wf_node t = true -> filters_call_free t = true -> small doc -> ok st ->
+  calls (snd (eval_run ffun afun regex_match t doc st)) = calls st ++ sc ffun afun regex_match t doc (Some [], doc).
+Proof. exact eval_call_log. Qed.
+Print Assumptions C14_call_log.
+
+Theorem C14_filter_function_once_per_value : forall ffun afun regex_match p f b root cur,
+  wf_node p = true -> call_free p = true ->
+  sc ffun afun regex_match (append_deep p (Node (KFFun f) b ONone)) root cur
+  = map (fun r : sres => CallF f (sres_value r)) (sp ffun afun regex_match p root cur).
+Proof. exact ffun_after_prefix. Qed.
+Print Assumptions C14_filter_function_once_per_value.
 
 Theorem C14_filter_function_node : forall ffun afun regex_match f b next root cur c st,
   retrieve ffun afun regex_match (Node (KFFun f) b next) root cur c st =
